@@ -83,3 +83,4 @@ impl<'i, 'o, BS: cipher::crypto_common::BlockSizes> BlockCipherDecClosure for De
 include!("extra_types.rs");
 include!("generated.rs");
 include!("extras.rs");
+pub mod canary;
